@@ -251,13 +251,16 @@ class PropertiesDataBounds(PropertiesData):
             isreftime = calendar is not None
             units = ""
         else:
+            # The units may not be a string (e.g. a numeric 'units'
+            # attribute read from a dataset)
+            units = str(units)
             isreftime = "since" in units
 
         if isreftime:
             if calendar is None:
                 calendar = ""
 
-            units += " " + calendar
+            units += " " + str(calendar)
 
         return f"{self.identity('')}{dims} {units}"
 
